@@ -135,18 +135,20 @@ Section W.
     if Nat.ltb 1 (length restricted) then replace_restricted group (ssort pos_leb restricted)
     else group.
 
-  Fixpoint mem_nat (x : nat) (l : list nat) : bool :=
-    match l with [] => false | y :: r => Nat.eqb x y || mem_nat x r end.
+  (* included_files: HashSet<String> keyed by the text of the directive *)
+  Fixpoint mem_name (x : bytes) (l : list bytes) : bool :=
+    match l with [] => false | y :: r => bytes_eqb x y || mem_name x r end.
 
-  Fixpoint emit_group (indent : nat) (group : list ginfo) (included : list nat) (o : out) : out :=
+  Fixpoint emit_group (indent : nat) (group : list ginfo) (included : list bytes) (o : out) : out :=
     match group with
     | [] => o
     | GTag tag incfile _ _ so eo is_block text _ :: r =>
         match incfile with
         | Some f =>
-            if mem_nat f included then emit_group indent r included o
-            else emit_group indent r (f :: included)
-                   (push (bytes_of "/include """ ++ nth f names [] ++ [dq]) (add_whitespace indent so o))
+            let incname := nth f names [] in
+            if mem_name incname included then emit_group indent r included o
+            else emit_group indent r (incname :: included)
+                   (push (bytes_of "/include """ ++ incname ++ [dq]) (add_whitespace indent so o))
         | None =>
             let o1 := track_line_comment text
                         (push ((if is_block then bytes_of "/begin " else []) ++ tag ++ text) (add_whitespace indent so o)) in
